@@ -7,7 +7,7 @@ PROPS="C01 C03 C04 C08 C10 C11 C12 C13 C16 C18 C19"
 for d in seeded/*/; do
   id=$(basename "$d")
   [ -n "$1" ] && [ "$1" != "$id" ] && continue
-  git -C /repo apply "$d/patch.diff" || { echo "$id: patch does not apply"; continue; }
+  git -C /repo apply "/verif/${d}patch.diff" || { echo "$id: patch does not apply"; continue; }
   caught=""
   for c in $PROPS; do
     out=$(./bin/simcheck run "$c" --tier quick 2>&1); code=$?
